@@ -6,8 +6,8 @@ namespace Sqfs.ParseTotal
 
 /-! ### old GNU sparse map -/
 
-theorem oldParse_safe (fixed : Bool) (buf : Bytes) : ∀ cnt i acc, i + 24 * cnt ≤ buf.length →
-    (oldParse fixed buf cnt i acc).safe := by
+theorem oldParse_safe (buf : Bytes) : ∀ cnt i acc, i + 24 * cnt ≤ buf.length →
+    (oldParse buf cnt i acc).safe := by
   intro cnt
   induction cnt with
   | zero => intro i acc _; simp [oldParse]
@@ -17,20 +17,20 @@ theorem oldParse_safe (fixed : Bool) (buf : Bytes) : ∀ cnt i acc, i + 24 * cnt
     obtain ⟨b, hb⟩ := get_some (buf := buf) (i := i + 12) (by omega)
     simp only [oldParse, ha, hb]
     refine safe_ite (fun _ => by trivial) (fun _ => ?_)
-    have h1 := readNumber_safe fixed buf i 12 (by omega) (by omega)
-    cases hr1 : readNumber fixed buf i 12 with
+    have h1 := readNumber_safe buf i 12 (by omega) (by omega)
+    cases hr1 : readNumber buf i 12 with
     | oob => rw [hr1] at h1; exact h1.elim
     | spin => rw [hr1] at h1; exact h1.elim
     | fail c => trivial
     | ok off =>
-      have h2 := readNumber_safe fixed buf (i + 12) 12 (by omega) (by omega)
-      cases hr2 : readNumber fixed buf (i + 12) 12 with
+      have h2 := readNumber_safe buf (i + 12) 12 (by omega) (by omega)
+      cases hr2 : readNumber buf (i + 12) 12 with
       | oob => rw [hr2] at h2; exact h2.elim
       | spin => rw [hr2] at h2; exact h2.elim
       | fail c => trivial
       | ok sz => exact ih _ _ (by omega)
 
-theorem oldExt_safe (fixed : Bool) : ∀ fuel stream acc, stream.length / 512 + 1 ≤ fuel → (oldExt fixed fuel stream acc).safe := by
+theorem oldExt_safe : ∀ fuel stream acc, stream.length / 512 + 1 ≤ fuel → (oldExt fuel stream acc).safe := by
   intro fuel
   induction fuel with
   | zero => intro stream acc h; omega
@@ -39,8 +39,8 @@ theorem oldExt_safe (fixed : Bool) : ∀ fuel stream acc, stream.length / 512 + 
     simp only [oldExt]
     refine safe_ite (fun _ => by trivial) (fun hlen => ?_)
     have hblk : (stream.take 512).length = 512 := by simp; omega
-    have h1 := oldParse_safe fixed (stream.take 512) 21 0 acc (by omega)
-    cases hp : oldParse fixed (stream.take 512) 21 0 acc with
+    have h1 := oldParse_safe (stream.take 512) 21 0 acc (by omega)
+    cases hp : oldParse (stream.take 512) 21 0 acc with
     | oob => rw [hp] at h1; exact h1.elim
     | spin => rw [hp] at h1; exact h1.elim
     | fail c => trivial
@@ -53,11 +53,11 @@ theorem oldExt_safe (fixed : Bool) : ∀ fuel stream acc, stream.length / 512 + 
       simp only [List.length_drop]
       omega
 
-theorem readGnuOldSparse_safe (fixed : Bool) (hdr stream : Bytes) (hlen : hdr.length = 512) :
-    (readGnuOldSparse fixed hdr stream).safe := by
+theorem readGnuOldSparse_safe (hdr stream : Bytes) (hlen : hdr.length = 512) :
+    (readGnuOldSparse hdr stream).safe := by
   unfold readGnuOldSparse
-  have h1 := oldParse_safe fixed hdr 4 386 [] (by omega)
-  cases hp : oldParse fixed hdr 4 386 [] with
+  have h1 := oldParse_safe hdr 4 386 [] (by omega)
+  cases hp : oldParse hdr 4 386 [] with
   | oob => rw [hp] at h1; exact h1.elim
   | spin => rw [hp] at h1; exact h1.elim
   | fail c => trivial
@@ -65,7 +65,7 @@ theorem readGnuOldSparse_safe (fixed : Bool) (hdr stream : Bytes) (hlen : hdr.le
     obtain ⟨stopped, acc⟩ := r
     obtain ⟨e, he⟩ := get_some (buf := hdr) (i := 482) (by omega)
     simp only [he]
-    exact safe_ite (fun _ => by trivial) (fun _ => oldExt_safe fixed _ stream acc (Nat.le_refl _))
+    exact safe_ite (fun _ => by trivial) (fun _ => oldExt_safe _ stream acc (Nat.le_refl _))
 
 /-! ### GNU 1.0 sparse map: `decode` and the 1024-byte window -/
 
